@@ -461,6 +461,14 @@ func (in *Interp) exec(t *rapid.T, inv *Invocation, body []*Stmt, where string, 
 					in.exec(t, inv, ib, "invariant", dc)
 				}
 			}
+			if s.ViaSM {
+				// the same actions through the reflection-based constructor (methods A, B, C and Check of a state machine type)
+				chk := acts[""]
+				if chk == nil {
+					chk = func(*rapid.T) {}
+				}
+				acts = rapid.StateMachineActions(&progSM{a: acts["A"], b: acts["B"], c: acts["C"], check: chk})
+			}
 			func() {
 				inv.inRepeat++
 				inv.stepStart = len(inv.Draws)
@@ -653,3 +661,13 @@ func doFail(t *rapid.T, k FailKind, msg string) {
 }
 
 var _ = errors.New
+
+// progSM: a state machine type for rapid.StateMachineActions; B takes the TB interface (both method shapes are accepted).
+type progSM struct {
+	a, b, c, check func(*rapid.T)
+}
+
+func (m *progSM) A(t *rapid.T)     { m.a(t) }
+func (m *progSM) B(t rapid.TB)     { m.b(t.(*rapid.T)) }
+func (m *progSM) C(t *rapid.T)     { m.c(t) }
+func (m *progSM) Check(t *rapid.T) { m.check(t) }
